@@ -18,6 +18,8 @@ import EPV.Lemmas.MapArrayKeys
 import EPV.Lemmas.MapArrayMaps
 import EPV.Lemmas.MapArrayArrays
 import EPV.Lemmas.MapArrayHeap
+import EPV.Lemmas.MapArrayLaws
+import EPV.Lemmas.MapArrayMergeRefine
 namespace EPV.C15
 open EPV.MapArray
 
@@ -132,10 +134,119 @@ theorem map_constructor_duplicates (l : Entries α) :
     (WF l → mapCtor l = .ok l) ∧ (¬ WF l → mapCtor l = .error .XQDY0137) :=
   ⟨mapCtor_of_WF, mapCtor_of_not_WF⟩
 
-/-- map:put never fails on a well-formed map; the result is well-formed. -/
+/-- map:put never fails on a well-formed map; the result is well-formed and is "all entries whose
+key is not `==` the new key, then the new entry". -/
 theorem put_total (es : Entries α) (h : WF es) (k : Key) (v : α) :
-    ∃ es', mapPut es k v = .ok es' ∧ WF es' :=
-  ⟨_, mapPut_of_WF h k v, mapPut_WF h (mapPut_of_WF h k v)⟩
+    mapPut es k v = .ok (putList es k v) ∧ WF (putList es k v) :=
+  ⟨mapPut_of_WF h k v, mapPut_WF h (mapPut_of_WF h k v)⟩
+
+/-- **get_put_same**: `map:get(map:put($m, $k, $v), $k) = $v` — every well-formed map, every key
+(NaN, −0, booleans, dates included), every value. -/
+theorem get_put_same (es : Entries (List β)) (h : WF es) (k : Key) (v : List β) :
+    ∃ es', mapPut es k v = .ok es' ∧ mapGet es' k = v :=
+  ⟨_, mapPut_of_WF h k v, mapGet_putList_same es k v⟩
+
+/-- **get_put_other**: a key that is not `==` the new key is looked up as before. -/
+theorem get_put_other (es : Entries (List β)) (h : WF es) (k k' : Key) (v : List β)
+    (hk : scanEq k k' = false) :
+    ∃ es', mapPut es k v = .ok es' ∧ mapGet es' k' = mapGet es k' :=
+  ⟨_, mapPut_of_WF h k v, mapGet_putList_other es k k' v hk⟩
+
+/-- map:contains after map:put -/
+theorem contains_put (es : Entries α) (h : WF es) (k k' : Key) (v : α) :
+    ∃ es', mapPut es k v = .ok es' ∧ mapContains es' k' = (mapContains es k' || scanEq k k') :=
+  ⟨_, mapPut_of_WF h k v, mapContains_putList es k k' v⟩
+
+/-- **size_put**: map:put adds one entry if the key was absent and keeps the size otherwise —
+for maps no two of whose keys are `==` (which is `WF` as soon as the keys do not clash; with a
+date with and one without timezone in the same map the code removes both, F15f). -/
+theorem size_put (es : Entries α) (h : WF es) (hs : ScanWF es) (k : Key) (v : α) :
+    ∃ es', mapPut es k v = .ok es' ∧
+      es'.length = if mapContains es k then es.length else es.length + 1 :=
+  ⟨_, mapPut_of_WF h k v, length_putList es hs k v⟩
+
+/-- **remove_contains**: after `map:remove($m, $keys)` a key is present iff it was present and is
+not `==` any of `$keys`. -/
+theorem remove_contains (es : Entries α) (h : WF es) (ks : List Key) (k : Key) :
+    ∃ es', mapRemove es ks = .ok es' ∧ WF es' ∧
+      mapContains es' k = (mapContains es k && !ks.any fun x => scanEq k x) :=
+  ⟨_, mapRemove_of_WF h ks, WF_filter _ h, mapContains_remove es ks k⟩
+
+/-- The map functions of the code are the F&O functions on keys that do not clash
+(`Agree K`, implied by the decidable `noClash K`): constructor, put, remove, get, contains. -/
+theorem map_functions_refine_spec_partial (K : List Key) (hK : noClash K = true)
+    (es : Entries (List β)) (hes : WF es) (hsub : ∀ e ∈ es, e.1 ∈ K) (k : Key) (hk : k ∈ K)
+    (ks : List Key) (hks : ∀ x ∈ ks, x ∈ K) (v : List β) :
+    mapPut es k v = .ok (Spec.put es k v) ∧
+    mapRemove es ks = .ok (Spec.remove es ks) ∧
+    mapGet es k = Spec.get es k ∧
+    mapContains es k = Spec.contains es k ∧
+    mapCtor es = Spec.construct es := by
+  have hA := Agree_of_noClash hK
+  refine ⟨?_, ?_, ?_, ?_, ?_⟩
+  · rw [mapPut_of_WF hes, ← putList_eq_spec es k v fun e he => (hA e.1 (hsub e he) k hk).2]; rfl
+  · rw [mapRemove_of_WF hes, removeList_eq_spec es ks fun e he x hx => (hA e.1 (hsub e he) x (hks x hx)).2]
+  · exact mapGet_eq_spec es k fun e he => (hA e.1 (hsub e he) k hk).1
+  · exact mapContains_eq_spec es k fun e he => (hA e.1 (hsub e he) k hk).2
+  · exact mapCtor_eq_spec es fun a ha b hb => (hA a.1 (hsub a ha) b.1 (hsub b hb)).1
+
+/-- the hypotheses are satisfiable on a non-trivial map: keys 1, 'a', NaN, 2.5; put with 1.0 -/
+example : noClash [.int 1, .str [97], .dnan, .dbl (mkRat 5 2) false, .dec 1] = true ∧
+    WF ([(.int 1, [10]), (.str [97], [20]), (.dnan, [30])] : Entries (List Nat)) ∧
+    mapPut ([(.int 1, [10]), (.str [97], [20]), (.dnan, [30])] : Entries (List Nat)) (.dec 1) [99] =
+      .ok [(.str [97], [20]), (.dnan, [30]), (.dec 1, [99])] := by decide
+
+/-! ### map:merge -/
+
+/-- map:merge of the code = F&O map:merge (all five policies, FOJS0003 included) whenever the keys
+of the operand maps do not clash. -/
+theorem merge_refines_spec_partial (maps : List (Entries (List β))) (pol : Policy)
+    (h : noClash (keysOf maps.flatten) = true) : mapMerge maps pol = Spec.merge maps pol :=
+  mapMerge_eq_spec maps pol (Agree_of_noClash h)
+
+/-- **merge_policy_*** (all policies at once).  If the merge succeeds, then for every key `k` the
+pair (is `k` present?, value of `k`) of the result is the fold of `stepVal` over all entries of all
+operand maps in order: an entry with the same key as `k` sets the value (use-last), appends its
+value (combine), or sets it only if `k` was absent so far (use-first, use-any). -/
+theorem merge_policy_fold (maps : List (Entries (List β))) (pol : Policy) (m : Entries (List β))
+    (h : Spec.merge maps pol = .ok m) (k : Key) :
+    (Spec.contains m k, Spec.get m k) = foldVal pol k (false, []) maps.flatten := by
+  have := mergeLoop_spec pol [] maps.flatten m h k
+  simpa [Spec.contains, Spec.get] using this
+
+/-- **merge_policy_use_first / use_any**: never fails; a key is looked up in the result as in the
+plain concatenation of the operand maps (first occurrence wins). -/
+theorem merge_policy_use_first (maps : List (Entries (List β))) (pol : Policy)
+    (hp : pol = .useFirst ∨ pol = .useAny) :
+    ∃ m, Spec.merge maps pol = .ok m ∧ (∀ k, Spec.get m k = Spec.get maps.flatten k) ∧
+      (∀ k, Spec.contains m k = Spec.contains maps.flatten k) := by
+  simpa [Spec.merge] using mergeLoop_first pol hp [] maps.flatten
+
+/-- **merge_policy_reject**: the concatenation of the operand maps when no key occurs twice,
+FOJS0003 otherwise. -/
+theorem merge_policy_reject (maps : List (Entries (List β))) :
+    Spec.merge maps .reject =
+      if ((maps.flatten).map (·.1)).Pairwise (fun a b => Spec.sameKey a b = false)
+      then .ok maps.flatten else .error .FOJS0003 := by
+  have := mergeLoop_reject [] maps.flatten
+  simpa [Spec.merge, Spec.contains] using this
+
+/-- only `reject` can make map:merge fail -/
+theorem merge_total (maps : List (Entries (List β))) (pol : Policy) (hp : pol ≠ .reject) :
+    ∃ m, Spec.merge maps pol = .ok m := mergeLoop_total pol hp [] maps.flatten
+
+/-- tests on literals: use-last takes the last value, combine concatenates in order, 1 = 1.0 -/
+example :
+    Spec.merge [[(.int 1, [10]), (.str [97], [20])], [(.dec 1, [11, 12]), (.uri [97], [])]] .useLast
+      = (.ok [(.dec 1, [11, 12]), (.uri [97], [])] : Except Err (Entries (List Nat))) ∧
+    Spec.merge [[(.int 1, [10]), (.str [97], [20])], [(.dec 1, [11, 12]), (.uri [97], [])]] .combine
+      = (.ok [(.int 1, [10, 11, 12]), (.str [97], [20])] : Except Err (Entries (List Nat))) ∧
+    Spec.merge [[(.int 1, [10]), (.str [97], [20])], [(.dec 1, [11, 12]), (.uri [97], [])]] .reject
+      = (.error .FOJS0003 : Except Err (Entries (List Nat))) ∧
+    mapMerge [[(.int 1, [10]), (.str [97], [20])], [(.dec 1, [11, 12]), (.uri [97], [])]] .combine
+      = (.ok [(.int 1, [10, 11, 12]), (.str [97], [20])] : Except Err (Entries (List Nat))) ∧
+    mapMerge [[(.int 1, [10]), (.str [97], [20])], [(.dec 1, [11, 12]), (.uri [97], [])]] .useLast
+      = (.ok [(.dec 1, [11, 12]), (.uri [97], [])] : Except Err (Entries (List Nat))) := by decide
 
 /-! ## immutability: no operation changes a value that already exists -/
 
